@@ -160,6 +160,24 @@ theorem expr_print_parse_state (fuel : Nat) (s : PState) (e : Expr) (k : List Ch
     wp (parseExpr fuel) s (fun e' s' => e' = e ∧ RT.At s' k ∧ RT.Same s s') (· = .fuel) :=
   (RT.rt_specs false fuel).1 s e k (fun h => by cases h) h hk hs
 
+/-- The extended class: additionally calls `f(arg, …)` whose name is a lower-case non-keyword
+identifier (what is printed without quotes and not changed by `strings.ToLower`), with arguments of
+the class or regex literals (`RT.rtOK true`). -/
+def PrintableX (e : Expr) : Prop := RT.rtOK true e = true
+
+instance (e : Expr) : Decidable (PrintableX e) := inferInstanceAs (Decidable (RT.rtOK true e = true))
+
+/-- **C03 (re-parsing, with calls).** The same for the extended class. Partial in one respect: the
+lower-casing table shipped with the input (the model's stand-in for `unicode.ToLower`) must have
+entries for non-ASCII runes only — which is what the harness sends; the parser lower-cases every
+call name through it. Still excluded from the class (see notes/C03.md): call names that need quotes
+or contain capitals (known finding / normalisation), `distinct`, type casts `::type`, wildcards,
+number and duration literals, and the ungrouped `-1 * x` operand of the known finding. -/
+theorem expr_print_parse_partial (e : Expr) (h : PrintableX e) (params : List (Str × BoundValue))
+    (lower : List (Char × Char)) (hl : ∀ p ∈ lower, 128 ≤ p.1.toNat) :
+    parseExprText e.print params lower = .ok e :=
+  RT.parseExprText_print e h params lower (fun _ => hl)
+
 -- non-vacuity: `a + b * (c - 1) AND d = 'x'`
 example : Printable
     (.binary .AND
@@ -186,6 +204,18 @@ example : Printable (.binary .OR
       (.binary .EQREGEX (.varRef "host".toList .Unknown) (.regex "^a/b\\.c$".toList)))
     (.binary .NEQ (.paren (.binary .ADD (.unsigned 18446744073709551615) (.integer (-7)))) (.boolean true))) := by
   decide
+
+-- nested calls, a regex argument, an empty argument list, an expression argument
+example : PrintableX (.binary .GT
+    (.call "percentile".toList [.call "mean".toList [.varRef "value".toList .Unknown], .integer 95])
+    (.binary .ADD (.call "count".toList [.regex "^cpu.*".toList]) (.call "now".toList []))) := by decide
+
+example : Expr.print (.binary .GT
+    (.call "percentile".toList [.call "mean".toList [.varRef "value".toList .Unknown], .integer 95])
+    (.binary .ADD (.call "count".toList [.regex "^cpu.*".toList]) (.call "now".toList []))) =
+    "percentile(mean(value), 95) > count(/^cpu.*/) + now()".toList := by decide
+
+example : ∀ p ∈ [('Ä', 'ä')], 128 ≤ p.1.toNat := by decide
 
 -- the excluded region: the tree of the known finding is not printable
 example : ¬ Printable (.binary .DIV (.varRef ['b'] .Unknown) (.binary .MUL (.integer (-1)) (.varRef ['a'] .Unknown))) := by
